@@ -21,3 +21,24 @@ package stubs
 
 // The engine only accepts *cache.Cache ("memory MUST be *cache.Cache for now").
 //@ devirt cache.Memory *cache.Cache
+
+// ISO-639 table lookup: a pure function of the code; nil for unknown codes.
+// The empty string is not a language code.
+//@ ufun isoKnown(code string) bool
+//@ axiom !isoKnown("")
+//@ extern github.com/barbashov/iso639-3.FromAnyCode
+//@   ensures (result != nil) == isoKnown(code)
+//@   ensures result != nil ==> len(result.Part3) == 3
+
+// Contexts: a context is a finite map from (string) keys to values;
+// WithValue returns a new context that differs from its parent at one key.
+//@ extern context.WithValue
+//@   params parent, key, val
+//@   ensures result != nil
+//@   ensures typeis[string](key) ==> ctxval(result, as[string](key)) == val
+//@     && all[string](k, k != as[string](key) ==> ctxval(result, k) == ctxval(parent, k))
+//@ iface (context.Context).Value
+//@   params ctx, key
+//@   ensures typeis[string](key) ==> result == ctxval(ctx, as[string](key))
+//@ extern context.Background
+//@   ensures result != nil
